@@ -32,7 +32,8 @@ REQUIRED_MONITORS = ["equals_base_at_translated", "Fq_equals_base_at_translated"
 REQUIRED_BUCKETS = {"quick": ["tpl:boundary", "tpl:affine", "tpl:power", "tpl:pair", "tpl:ternary", "tpl:chain3", "place:default",
                               "place:start", "place:after-untouched", "place:after-angle", "dim:1d", "dim:2d",
                               "pd:feeds-intermediate", "validity-boundary-crossed", "lane:asan", "new-parameters:untyped",
-                              "new-parameters:untyped-and-no-volume-parameter-left", "same-name-second-definition", "new-parameter-keeps-base-name"]}
+                              "new-parameters:untyped-and-no-volume-parameter-left", "same-name-second-definition", "new-parameter-keeps-base-name",
+                              "same-source-other-defaults", "magnetic"]}
 REQUIRED_BUCKETS["thorough"] = REQUIRED_BUCKETS["quick"]
 
 BASES = ["sphere", "cylinder", "ellipsoid", "core_shell_sphere", "hollow_cylinder", "barbell", "capped_cylinder",
@@ -282,13 +283,28 @@ def run_case(case, rec):
         q = [qx, qy]
         for a in angles:
             rp[a] = bp[a] = float(rng.uniform(-80, 80))
+    if dim == "2d" and bi.parameters.nmagnetic > 0 and k % 2 == 0:
+        # magnetism on an untouched SLD (its position in the table moves with the placement of the new parameters)
+        slds_ = [p_.name for p_ in bi.parameters.call_parameters if p_.type == "sld"]
+        if slds_:
+            sm_ = slds_[int(rng.integers(len(slds_)))]
+            mg = {sm_ + "_M0": float(rng.uniform(0.5, 4.0)), sm_ + "_mtheta": float(rng.uniform(-80, 80)),
+                  sm_ + "_mphi": float(rng.uniform(-170, 170)), "up_frac_i": float(rng.uniform(0, 1)),
+                  "up_frac_f": float(rng.uniform(0, 1)), "up_theta": float(rng.uniform(0, 180)), "up_phi": float(rng.uniform(0, 180))}
+            rec.bucket("magnetic")
+        else:
+            mg = {}
+    else:
+        mg = {}
     model = sascore.build_model(info, platform="dll")
     bmodel = sas.build(base)
     kr, kb = model.make_kernel(q), bmodel.make_kernel(q)
     ctx = {"base": base, "template": tpl, "translation": text, "insert_after": ia, "new_values": newvals,
            "translated_base_values": {r: tr[r] for r in repl}, "dim": dim}
-    I = np.asarray(direct_model.call_kernel(kr, dict(rp)), float)
-    Ib = np.asarray(direct_model.call_kernel(kb, dict(bp)), float)
+    I = np.asarray(direct_model.call_kernel(kr, dict(rp, **mg)), float)
+    Ib = np.asarray(direct_model.call_kernel(kb, dict(bp, **mg)), float)
+    if mg:
+        ctx["magnetic"] = mg
     sc = float(np.max(np.abs(Ib - bp["background"])))
     ok = core.close(I, Ib, 1e-10, 1e-12*sc)
     rec.check("equals_base_at_translated", ok, None if ok else dict(ctx, observed=I, base=Ib,
@@ -331,10 +347,33 @@ def run_case(case, rec):
                                                 second_translation=text2, observed=I2, base=Ib2,
                                                 max_rel_err=core.maxrel(I2, Ib2, 1e-12*sc2)))
                 # and the first definition is still itself
-                I1 = np.asarray(direct_model.call_kernel(sascore.build_model(info, platform="dll").make_kernel(q), dict(rp)), float)
+                I1 = np.asarray(direct_model.call_kernel(sascore.build_model(info, platform="dll").make_kernel(q), dict(rp, **mg)), float)
                 rec.check("equals_base_at_translated", core.close(I1, Ib, 1e-10, 1e-12*sc),
                           dict(ctx, note="first definition rebuilt after the second", observed=I1, base=Ib))
                 rec.bucket("same-name-second-definition")
+        # a further definition with the same name, names and equations, differing only in the defaults and upper
+        # limits of the new parameters: left at their defaults, the new parameters take *this* definition's values
+        if tpl in ("affine", "pair"):
+            new3 = [n_[:2] + [float(n_[2])*1.3, [0, float(n_[2])*1.3*4.0]] + n_[4:] for n_ in new]
+            info3 = sascore.reparameterize(bi, new3, text, insert_after=ia, name="rtm_rep_%04d" % k)
+            model3 = sascore.build_model(info3, platform="dll")
+            d3 = {n_[0]: float(n_[2]) for n_ in new3}
+            tr3, _ = translate(st, d3, {kk: vv for kk, vv in basevals.items() if kk not in repl})
+            rp3 = {kk: vv for kk, vv in rp.items() if kk not in d3}            # new parameters omitted
+            bp3 = dict(tr3, scale=pars0["scale"], background=pars0["background"])
+            for a in angles:
+                bp3[a] = rp.get(a, pars0.get(a, 0.0))
+            I3 = np.asarray(direct_model.call_kernel(model3.make_kernel(q), dict(rp3)), float)
+            Ib3 = np.asarray(direct_model.call_kernel(kb, dict(bp3)), float)
+            ok3 = core.close(I3, Ib3, 1e-10, 1e-12*float(np.max(np.abs(Ib3 - bp3["background"]))))
+            rec.check("equals_base_at_translated", ok3,
+                      None if ok3 else dict(ctx, note="definition with the same source but other defaults; new parameters "
+                                            "left at their defaults", defaults=d3, observed=I3, base=Ib3))
+            lim3 = {p_.name: tuple(p_.limits) for p_ in info3.parameters.call_parameters if p_.name in d3}
+            got3 = {p_.name: tuple(p_.limits) for p_ in model3.info.parameters.call_parameters if p_.name in d3}
+            rec.check("untouched_parameters_preserved", lim3 == got3,
+                      {"base": base, "note": "built model carries another definition's limits", "declared": lim3, "carried": got3})
+            rec.bucket("same-source-other-defaults")
     # ---- dispersity on new parameters: weighted mean over the mesh in the new parameters
     newpars = [p for p in info.parameters.call_parameters if p.name in newvals and p.polydisperse]
     if newpars:
